@@ -271,6 +271,7 @@ def runMonitor (prop : String) (ops obs : Array String) : IO Unit := do
           if !(Spec.C03.sameBalances (Spec.C03.expectedBank pre post) post.bank) then
             fail "paid-once"; fails := fails + 1
           if !accepted && !(sameTables pre post) then fail "rejected-moves-nothing"; fails := fails + 1
+          if !(Spec.C03.claimLiveOk pre op accepted) then fail "right-secret-rejected"; fails := fails + 1
           if !(Spec.C03.queueOk post) then fail "queue-bijection"; fails := fails + 1
           if consecutive && Spec.C03.queueFutureOk pre then
             if !(Spec.C03.claimInTime pre op accepted) then fail "claim-after-expiry"; fails := fails + 1
